@@ -228,17 +228,21 @@ CHECKS = {
                  "writes); durability under power loss is outside the property. Attribute calls and directory creation are not modelled."),
     },
     "C19": {
-        "engine": "Cli", "design_ref": "DESIGN.md section 4 / C19",
-        "technique": "Coq proof of the complete-task effect and of the bundle reader for all read sizes + strace and hook correspondence; task planning by search against a reference",
-        "text": ("Theorems (Props/C19.v): after a complete task — for every file system, payload and split into writes — the destination holds exactly the "
+        "engine": "Cli", "design_ref": "DESIGN.md section 4 / C19 and section 10",
+        "technique": "Coq proof of the complete-task effect, of the bundle reader for all read sizes, and of the file filters (the regular expression built for a glob is its item-wise translation and matches what the glob means; fileFilter decides as documented) + strace and hook correspondence; the rest of task planning by search against a reference",
+        "text": ("Theorems (Props/C19.v): after a complete task - for every file system, payload and split into writes - the destination holds exactly the "
                  "payload (library output, or the original bytes on library failure), an in-place run leaves no backup, a failed write restores the original, "
                  "every other path is unchanged; the F1 model of concatFileReader delivers exactly the inputs in order separated by the separator for every "
-                 "sequence of read-buffer sizes and short reads, and reaches EOF. Ties: strace skeletons vs ops_of; the extracted reader vs the real "
-                 "concatFileReader Read call by Read call (verif-tagged hook). Partial: which files are selected and where they go (flag parsing, createTasks, "
-                 "NewTask, filters, attribute preservation) is not modelled; it is decided by search only — generated trees x invocation shapes compared with "
-                 "a Go reference of the documented rules, every untouched path hashed."),
-        "note": ("Partial (planning is search-only). Trusted: Coq kernel, extraction, driver, strace, the verif hook test, the reference implementation of the "
-                 "documented rules in harness/cmd/clifs/ref.go."),
+                 "sequence of read-buffer sizes and short reads, and reaches EOF; for EVERY glob pattern the string-level pipeline of compilePattern "
+                 "(QuoteMeta + three ReplaceAll + anchors) equals the item-wise translation, its anchored match is the meaning of the glob (** any string, * "
+                 "no slash, ? exactly one character), and fileFilter accepts a path iff a --match pattern matches the base name and the last matching "
+                 "--include / --exclude pattern is an include (K130: `?` was compiled to an optional character; repaired). Ties: strace skeletons vs ops_of; the "
+                 "extracted reader vs the real concatFileReader Read call by Read call; compile_src / glob_matches / file_filter vs the real compilePattern "
+                 "(regexp source bytes, Go regexp matches) and fileFilter on 3,000 cases (verif-tagged hooks). Partial: which destination a file gets and "
+                 "what else is preserved (flag parsing, createTasks, NewTask, attribute preservation) is not modelled; it is decided by search only - "
+                 "generated trees x invocation shapes compared with a Go reference of the documented rules, every untouched path hashed."),
+        "note": ("Partial (path planning is search-only). Trusted: Coq kernel, extraction, driver, strace, the verif hook tests, Go's regexp on the fragment "
+                 "^ literal .* [^/]* [^/] $, the reference implementation of the documented rules in harness/cmd/clifs/ref.go."),
     },
     "C10": {
         "engine": "Buf", "design_ref": "DESIGN.md section 4 / C10",
